@@ -436,10 +436,16 @@ func (d *Driver) Check(id, tier string) int {
 			fmt.Printf("KNOWN-FINDING: property=%s %s [%s] (%d runs)\n", id, kf.What, sig, agg.violCount[sig])
 			continue
 		}
+		if len(reported) >= 12 {
+			// enough replay files; the remaining signatures are listed only
+			fmt.Printf("  (also) signature: %s — %s (%d runs)\n", sig, detail, agg.violCount[sig])
+			reported = append(reported, sig)
+			continue
+		}
 		rf := &ReplayFile{Property: id, Signature: sig, Detail: detail, Seed: seed, Tier: tier, Plan: r.Plan, OrigSteps: len(r.Plan.Steps)}
 		if minimised < 3 {
 			minimised++
-			mp, n := d.Minimise(sc, r.Plan, sig, 200, 3*time.Minute)
+			mp, n := d.Minimise(sc, r.Plan, sig, 120, 3*time.Minute)
 			rf.Plan, rf.Minimised, rf.ShrinkRuns = mp, true, n
 		}
 		path := filepath.Join(Root(), "replays", fmt.Sprintf("%s-%d-%d.json", id, seed, len(reported)))
